@@ -18,6 +18,12 @@ pub fn check_vehicle_load(context: &CheckerContext) -> Result<(), Vec<GenericErr
 fn check_vehicle_load_assignment(context: &CheckerContext) -> GenericResult<()> {
     context.solution.tours.iter().try_for_each::<_, GenericResult<_>>(|tour| {
         let capacity = MultiDimLoad::new(context.get_vehicle(&tour.vehicle_id)?.capacity.clone());
+
+        // NOTE: a tour whose activities are all at one location has a single stop, so there are no legs to check
+        if let [stop] = tour.stops.as_slice() {
+            return check_single_stop_load(context, tour, stop, &capacity);
+        }
+
         let intervals = get_intervals(context, tour);
 
         intervals
@@ -92,6 +98,60 @@ fn check_vehicle_load_assignment(context: &CheckerContext) -> GenericResult<()> 
             })
             .map(|_| ())
     })
+}
+
+fn check_single_stop_load(
+    context: &CheckerContext,
+    tour: &Tour,
+    stop: &Stop,
+    capacity: &MultiDimLoad,
+) -> GenericResult<()> {
+    let demands = stop
+        .activities()
+        .iter()
+        .map(|activity| {
+            let activity_type = context.get_activity_type(tour, stop, activity)?;
+            get_demand(context, activity, &activity_type).map(|demand| (activity, demand))
+        })
+        .collect::<GenericResult<Vec<_>>>()?;
+
+    // NOTE: reload intervals inside of one stop are not analyzed
+    if demands.iter().any(|(activity, _)| activity.activity_type == "reload") {
+        return Ok(());
+    }
+
+    let (start_delivery, end_pickup) = demands.iter().fold(
+        (MultiDimLoad::default(), MultiDimLoad::default()),
+        |(delivery, pickup), (_, (demand_type, demand))| match demand_type {
+            DemandType::StaticDelivery => (delivery + *demand, pickup),
+            DemandType::StaticPickup => (delivery, pickup + *demand),
+            DemandType::StaticPickupDelivery => (delivery + *demand, pickup + *demand),
+            _ => (delivery, pickup),
+        },
+    );
+
+    let end_load = demands.iter().try_fold(start_delivery, |load, (activity, (demand_type, demand))| {
+        if !capacity.can_fit(&load) {
+            return Err(GenericError::from(format!("load exceeds capacity in tour '{}'", tour.vehicle_id)));
+        }
+
+        Ok(match demand_type {
+            _ if activity.activity_type == "arrival" => load - end_pickup,
+            DemandType::StaticDelivery | DemandType::DynamicDelivery => load - *demand,
+            DemandType::StaticPickup | DemandType::DynamicPickup => load + *demand,
+            DemandType::None | DemandType::StaticPickupDelivery => load,
+        })
+    })?;
+
+    if !capacity.can_fit(&end_load) {
+        return Err(format!("load exceeds capacity in tour '{}'", tour.vehicle_id).into());
+    }
+
+    if MultiDimLoad::new(stop.load().clone()) == end_load {
+        Ok(())
+    } else {
+        Err(format!("load mismatch at stop 0 in tour '{}'", tour.vehicle_id).into())
+    }
 }
 
 fn check_resource_consumption(context: &CheckerContext) -> GenericResult<()> {
